@@ -194,6 +194,25 @@ void Groups::evalArguments( int argc, char* argv[]) noexcept( false)
 
    mEvaluating = true;
 
+   // like in a single handler, no list of values stays open when the
+   // evaluation ends (also with an exception): the values at the beginning of
+   // a following evaluation do not belong to the last argument of this one
+   struct ValueListsCloser
+   {
+      explicit ValueListsCloser( ArgHandlerCont& groups):
+         mGroups( groups)
+      {
+      }
+      ~ValueListsCloser()
+      {
+         for (auto & stored_group : mGroups)
+         {
+            stored_group.mpArgHandler->endValueList();
+         } // end for
+      }
+      ArgHandlerCont&  mGroups;
+   } const  close_value_lists( mArgGroups);
+
    for (auto ai = alp.begin(); ai != alp.end(); ++ai)
    {
       auto  result = Handler::ArgResult::unknown;
